@@ -336,6 +336,18 @@ class TermInterp:
                 for blk, c in branches:
                     self._block(list(blk) + rest, dict(env), c, out)
                 return
+            if isinstance(s, ast.For) and isinstance(s.iter, (ast.Tuple, ast.List)) and not s.orelse \
+                    and not any(isinstance(x, (ast.Break, ast.Continue)) for b_ in s.body for x in ast.walk(b_)):
+                # a loop over a literal sequence is unrolled: target = element; body — for each element in turn
+                unrolled: List[ast.stmt] = []
+                for elt in s.iter.elts:
+                    asg = ast.Assign(targets=[s.target], value=elt)
+                    ast.copy_location(asg, s)
+                    ast.fix_missing_locations(asg)
+                    unrolled.append(asg)
+                    unrolled.extend(s.body)
+                self._block(unrolled + rest, env, conds, out)
+                return
             if isinstance(s, ast.Pass):
                 i += 1
                 continue
